@@ -13,14 +13,9 @@
 #include <algorithm>
 
 #include "contain.h"
+#include "statics.h"
 #include "vsched.h"
 
-extern "C" {
-extern char h3w_pad_before_data[4096];
-extern char h3w_pad_after_data[4096];
-extern char h3w_pad_before_bss[4096];
-extern char h3w_pad_after_bss[4096];
-}
 
 namespace {
 struct Region {
@@ -56,17 +51,15 @@ bool segvHook(void *addr, void *) {
 }  // namespace
 
 void trapInit(const char *argv0) {
-    long pg = sysconf(_SC_PAGESIZE);
-    (void)pg;
-    g_reg[0].lo = (uintptr_t)h3w_pad_before_data;
-    g_reg[0].hi = (uintptr_t)h3w_pad_after_data + 4096;
-    g_reg[1].lo = (uintptr_t)h3w_pad_before_bss;
-    g_reg[1].hi = (uintptr_t)h3w_pad_after_bss + 4096;
-    for (auto &r : g_reg)
-        if ((r.lo & 4095) || (r.hi & 4095) || r.hi <= r.lo) {
-            fprintf(stderr, "trap: unexpected layout of library static storage\n");
-            exit(3);
-        }
+    staticsInit();
+    if (!staticsAvailable()) {  // sanitizer builds: no fenced layout, trap disabled
+        g_reg[0] = g_reg[1] = Region{0, 0};
+        return;
+    }
+    for (int i = 0; i < 2; i++) {
+        g_reg[i].lo = staticRegions()[i].lo;
+        g_reg[i].hi = staticRegions()[i].hi;
+    }
     // data symbols for reporting
     std::string txt;
     if (readFile(std::string(argv0) + ".syms", txt)) {
@@ -89,7 +82,8 @@ void trapInit(const char *argv0) {
 size_t trapProtectedBytes() {
     // library bytes only (pads excluded)
     size_t n = 0;
-    for (auto &r : g_reg) n += (r.hi - r.lo) - 2 * 4096;
+    for (auto &r : g_reg)
+        if (r.hi > r.lo) n += (r.hi - r.lo) - 2 * 4096;
     return n;
 }
 
